@@ -291,11 +291,23 @@ harness numbers them by their rank under `term_ord.fast_compare` together with t
 `one` (`dest_monomial` of a numeral) and hands over each atom's `size()`; `fastCmp` is then
 `fast_compare` on atoms and left-nested products of atoms: size first (`a * b` has size
 `|a| + |b| + 3`), then the function parts `times a` / `times a'`, then the arguments.
-(A product and a single atom of the *same* size would be compared through the atom's inner
-structure, which this model does not have: the correspondence stream avoids such atoms.) -/
+An atom against a product of the same size is decided by the atom's `Shape` (see there). -/
+
+/-- What `fast_compare` needs to know about an atom besides its rank: its `size()`, the size of its
+function part (`t.fun.size()`, 1 for an atom that is not an application) and whether the head of a
+binary application compares greater than the constant `times` -- these decide an atom against a
+PRODUCT of the same size (`fast_compare` then compares `t.fun` with `times x`: sizes first, then
+the heads).  A numeric literal stands for an atom of that size that is not an application. -/
+structure Shape where
+  size : Nat
+  fsz : Nat := 1
+  hgt : Bool := false
+  deriving Repr, DecidableEq, Inhabited
+
+instance (n : Nat) : OfNat Shape n := ⟨{ size := n }⟩
 
 inductive NExp where
-  | atom (id : Nat) (size : Nat)
+  | atom (id : Nat) (sh : Shape)
   | num (n : Nat)
   | add (a b : NExp)
   | mul (a b : NExp)
@@ -305,7 +317,7 @@ inductive NExp where
 namespace NExp
 
 def size : NExp → Nat
-  | atom _ s => s
+  | atom _ s => s.size
   | num _ => 1
   | add a b => a.size + b.size + 3
   | mul a b => a.size + b.size + 3
@@ -324,22 +336,33 @@ def ordThen (a b : Ordering) : Ordering :=
   | .eq => b
   | o => o
 
-/-- `fast_compare` on atoms / `one` / left-nested products; `one` is the rank of the constant `one`. -/
+/-- `fast_compare` on two leaves (atoms, or a numeral standing for the constant `one` whose rank
+is `one`): rank, and -- so that only identical leaves compare equal -- the remaining fields; a
+numeral comes before an atom of the same rank (ranks are distinct in what the harness sends). -/
+def leafCmp (one : Nat) : NExp → NExp → Ordering
+  | .atom i s, .atom j s' =>
+    ordThen (compare i j) (ordThen (compare s.fsz s'.fsz) (compare s.hgt.toNat s'.hgt.toNat))
+  | .num n, .num m => compare n m
+  | .num _, .atom j _ => if one ≤ j then .lt else .gt
+  | .atom i _, .num _ => if one ≤ i then .gt else .lt
+  | _, _ => .eq
+
+/-- `fast_compare` on atoms / `one` / left-nested products; `one` is the rank of the constant `one`.
+Size first; two products: the function parts `times x`, `times x'` (size, then `x` against `x'`),
+then the arguments; an atom against a product of the same size: the atom's function part against
+`times x` (sizes `fsz` and `|x| + 2`), then the heads. -/
 def fastCmp (one : Nat) : NExp → NExp → Ordering
   | .mul x y, .mul x' y' =>
     if (NExp.mul x y).size ≠ (NExp.mul x' y').size then compare (NExp.mul x y).size (NExp.mul x' y').size
     else ordThen (compare x.size x'.size) (ordThen (fastCmp one x x') (fastCmp one y y'))
+  | .atom i s, .mul x y =>
+    if s.size ≠ (NExp.mul x y).size then compare s.size (NExp.mul x y).size
+    else ordThen (compare s.fsz (x.size + 2)) (if s.hgt then .gt else .lt)
+  | .mul x y, .atom i s =>
+    if (NExp.mul x y).size ≠ s.size then compare (NExp.mul x y).size s.size
+    else ordThen (compare (x.size + 2) s.fsz) (if s.hgt then .lt else .gt)
   | t1, t2 =>
-    if t1.size ≠ t2.size then compare t1.size t2.size
-    else
-      let rank : NExp → Option Nat := fun t =>
-        match t with
-        | .atom i _ => some i
-        | .num _ => some one
-        | _ => none
-      match rank t1, rank t2 with
-      | some i, some j => compare i j
-      | _, _ => .lt
+    if t1.size ≠ t2.size then compare t1.size t2.size else leafCmp one t1 t2
 
 /-- `nat.compare_atom`: numbers last, two numbers are "equal". -/
 def compareAtom (one : Nat) (t1 t2 : NExp) : Ordering :=
